@@ -109,8 +109,14 @@ fn two_point(n: usize, m: f64, scale: f64) -> Vec<f64> {
 }
 
 fn judge_unpaired(na: usize, nb: usize, sa: f64, sb: f64, confs: &[(Kind, f64)], s: &mut Sink) {
-    let a = two_point(na, 1.0, sa);
-    let b = two_point(nb, -0.5, sb);
+    judge_unpaired_scaled(na, nb, sa, sb, 0, confs, s)
+}
+
+/// the construction with every observation multiplied by 2^e (exact)
+fn judge_unpaired_scaled(na: usize, nb: usize, sa: f64, sb: f64, sc: i32, confs: &[(Kind, f64)], s: &mut Sink) {
+    let k = 2f64.powi(sc);
+    let a = two_point(na, k, sa * k);
+    let b = two_point(nb, -0.5 * k, sb * k);
     let run = |v: &[f64]| -> Vec<(f64, u64)> {
         let mut r: Vec<(f64, u64)> = vec![];
         for &x in v {
@@ -137,16 +143,16 @@ fn judge_unpaired(na: usize, nb: usize, sa: f64, sb: f64, confs: &[(Kind, f64)],
     let center = to_f64(&(&ea.mean - &eb.mean));
     let u = 1.2e-16;
     let cond = ea.cond_sumsq().max(eb.cond_sumsq());
-    let e = Expect { center, center_tol: 8.0 * u * (ea.sum_abs_f() / na as f64 + eb.sum_abs_f() / nb as f64) + 1e-300, se: to_f64(&sum).sqrt(), dof: dof_f, eps: 40.0 * u * cond, u, se_abs: 0.0 };
+    let e = Expect { center, center_tol: 8.0 * u * (ea.sum_abs_f() / na as f64 + eb.sum_abs_f() / nb as f64) + f64::MIN_POSITIVE, se: to_f64(&sum).sqrt(), dof: dof_f, eps: 40.0 * u * cond, u, se_abs: 0.0 };
     for &(kind, level) in confs {
         s.evals += 1;
         s.calls += 1;
         let c = conf(kind, level);
-        let case = || json!({"check":"unpaired","na":na,"nb":nb,"sa":sa,"sb":sb,"kind":kind,"level":level});
+        let case = || json!({"check":"unpaired","na":na,"nb":nb,"sa":sa,"sb":sb,"scale_exponent":sc,"kind":kind,"level":level});
         match st.ci_mean(c) {
             Err(err) => s.violation("unpaired/valid-sample-rejected", format!("na={na} nb={nb}: Err({err})"), case()),
             Ok(iv) => {
-                judge_interval("unpaired", kind, level, shape64(&iv), &e, &case, &|| format!("unpaired na={na} nb={nb} sa={sa} sb={sb} (effective dof {dof_f:.4}), {c:?}"), s);
+                judge_interval("unpaired", kind, level, shape64(&iv), &e, &case, &|| format!("unpaired na={na} nb={nb} sa={sa} sb={sb} x 2^{sc} (effective dof {dof_f:.4}), {c:?}"), s);
                 s.outcome(&("unpaired", kind, bucket(dof_f), dof_f.fract() != 0.0));
                 if dof_f.fract() != 0.0 {
                     s.count("real-valued-dof-cases", 1);
@@ -254,6 +260,7 @@ enum Job {
     Dense(usize, usize, usize),
     Stream(Vec<usize>),
     Unp(usize, usize, f64, f64),
+    UnpScaled(usize, usize, f64, f64, i32),
     Prop(usize),
 }
 
@@ -291,6 +298,18 @@ fn run(tier: Tier) -> Sink {
     for n in 4..=tier.pick(120, 400) {
         jobs.push(Job::Prop(n));
     }
+    // every binade: three constructions scaled by every power of two for which the data and
+    // their squares stay normal (2^-500 .. 2^505): intermediate quantities of the effective dof
+    // (fourth powers of the data) overflow / underflow gradually / underflow totally in bands a
+    // few binades wide
+    for e in -500..=505 {
+        for (na, nb, r) in [(3, 2, 1.0), (5, 4, 0.0625), (12, 7, 16.0)] {
+            if r > 1.0 && e > 500 {
+                continue;
+            }
+            jobs.push(Job::UnpScaled(na, nb, 1.0, r, e));
+        }
+    }
     // level sweeps: all three kinds on the dense confidence grid, at small dof (every n), on a
     // geometric ladder of larger ones, around the switch and on the normal branch
     {
@@ -321,6 +340,7 @@ fn run(tier: Tier) -> Sink {
         Job::Dense(lo, hi, jmin) => judge_dense(*lo, *hi, *jmin, s),
         Job::Stream(p) => judge_stream(p, &confs, s),
         Job::Unp(na, nb, sa, sb) => judge_unpaired(*na, *nb, *sa, *sb, &confs, s),
+        Job::UnpScaled(na, nb, sa, sb, e) => judge_unpaired_scaled(*na, *nb, *sa, *sb, *e, &confs, s),
         Job::Prop(n) => judge_prop(*n, &confs, s),
     })
 }
@@ -335,7 +355,7 @@ fn replay_case(case: &Value, s: &mut Sink) {
             judge_dense(n, n, 1, s)
         }
         "stream" => judge_stream(&[case["n"].as_u64().unwrap() as usize], &confs, s),
-        "unpaired" => judge_unpaired(case["na"].as_u64().unwrap() as usize, case["nb"].as_u64().unwrap() as usize, case["sa"].as_f64().unwrap(), case["sb"].as_f64().unwrap(), &confs, s),
+        "unpaired" => judge_unpaired_scaled(case["na"].as_u64().unwrap() as usize, case["nb"].as_u64().unwrap() as usize, case["sa"].as_f64().unwrap(), case["sb"].as_f64().unwrap(), case["scale_exponent"].as_i64().unwrap_or(0) as i32, &confs, s),
         _ => judge_prop(case["n"].as_u64().unwrap() as usize, &confs, s),
     }
 }
@@ -356,7 +376,7 @@ fn main() {
     s.sample(json!({"check":"stream","n":100001,"dof":100000,"kind":"Two","level":0.95,"oracle":"normal CDF (t accepted within 1% of the switch)"}));
     s.sample(json!({"check":"unpaired","na":3,"nb":7,"sa":1.0,"sb":0.25,"oracle":"exact effective dof (real-valued) from rational variances; t CDF at that dof"}));
     s.sample(json!({"check":"proportion","n":30,"k":7,"kind":"Upper","level":0.9,"oracle":"z = sqrt(n)(k/n-p)/sqrt(p(1-p)) at the returned root; Phi(z) = 0.9"}));
-    rep.rule = format!("integer dof: +1,-1,... stream queried at {} sample sizes ({}) x {} confidences; real dof: unpaired two-point constructions (na,nb) in 2..12 squared x 7 sd ratios + 13 large/unbalanced constructions (5 with a sample beyond the population limit); proportion: every admissible (n,k), n<={}; level sweeps: {} confidences (every 0.001 of [0.001,0.999], every 0.0001 of [0.001,0.01] and [0.99,0.9999], neighbours of 1/2; x 3 kinds) at every n <= {} plus a geometric ladder up to and beyond the switch, and for every admissible (n,k), n <= {}, of the proportion interval; dense sweep: quick dof 15000..100999 x 600 one-sided levels 0.70..0.9995, thorough every dof 1..100999 x 999 levels 0.5005..0.9995 (dense sweep for isolated failures of the upstream quantile routine); distinct by (kind, level, 1-2-5 dof bucket)", query_points(tier).len(), tier.pick("every n<=3000, every n in 99000..101000, 2% geometric steps between, 131072, 200001, 1000001", "every n in 2..101000, 131072, 200001, 1000001"), vcheck::confs(tier).len(), tier.pick(120, 400), dense_confs().len(), tier.pick(64, 1000), tier.pick(30, 120));
+    rep.rule = format!("integer dof: +1,-1,... stream queried at {} sample sizes ({}) x {} confidences; real dof: unpaired two-point constructions (na,nb) in 2..12 squared x 7 sd ratios + 13 large/unbalanced constructions (5 with a sample beyond the population limit) + 3 constructions scaled by every power of two 2^-500..2^505; proportion: every admissible (n,k), n<={}; level sweeps: {} confidences (every 0.001 of [0.001,0.999], every 0.0001 of [0.001,0.01] and [0.99,0.9999], neighbours of 1/2; x 3 kinds) at every n <= {} plus a geometric ladder up to and beyond the switch, and for every admissible (n,k), n <= {}, of the proportion interval; dense sweep: quick dof 15000..100999 x 600 one-sided levels 0.70..0.9995, thorough every dof 1..100999 x 999 levels 0.5005..0.9995 (dense sweep for isolated failures of the upstream quantile routine); distinct by (kind, level, 1-2-5 dof bucket)", query_points(tier).len(), tier.pick("every n<=3000, every n in 99000..101000, 2% geometric steps between, 131072, 200001, 1000001", "every n in 2..101000, 131072, 200001, 1000001"), vcheck::confs(tier).len(), tier.pick(120, 400), dense_confs().len(), tier.pick(64, 1000), tier.pick(30, 120));
     rep.assume("the tolerance floor per dof tier is bounded below by the accuracy of the upstream (statrs) quantile routine; observed maxima per 1-2-5 dof bucket are in coverage.maxima");
     rep.require(s.counter("real-valued-dof-cases") > 100, "fewer than 100 real-valued dof cases");
     rep.require(s.distinct() >= 100, "fewer than 100 distinct classes: vacuous");
